@@ -696,6 +696,10 @@ def _check(run, only_case, facts0, voc, fixed_names, quick, procs, parent):
                 stats['variants_not_loadable'] += 1
                 continue
             role = case['role']
+            if case.get('variant'):
+                stats.setdefault('variants', {}).setdefault(role.split(':')[0], {})
+                vv = stats['variants'][role.split(':')[0]]
+                vv[case['variant']] = vv.get(case['variant'], 0) + 1
             rs = stats['roles'].setdefault(role, {'cases': 0, 'failing': 0, 'words': set()})
             rs['cases'] += 1
             rs['words'].add(case['word'])
@@ -724,6 +728,7 @@ def _check(run, only_case, facts0, voc, fixed_names, quick, procs, parent):
     for rs in stats['roles'].values():
         rs['words'] = len(rs['words'])
     run.cov['role_word_pairs_covered'] = pairs_total
+    run.cov['role_variants_covered'] = {k: {'distinct': len(v), 'cases': sum(v.values())} for k, v in stats.get('variants', {}).items()}
     run.cov['failing_cases_brief'] = sorted(brief, key=lambda b: (str(b[0]), str(b[1])))
     run.cov['exhaustive'] = False       # every (role, word) pair is used at least once per sweep; programs and positions are sampled
     run.cov.update({'roles': stats['roles'], 'failing_by_class': stats['classes'], 'control_failed_groups': stats['control_failed_groups'],
